@@ -106,7 +106,7 @@ pub fn bar_screen(_args: &[String]) -> String {
                         tried += 1;
                         let got = term.contents();
                         if got != m.screen() {
-                            return report("C01 screen = printed lines + current frame after every draw (C03: printed lines stay, once, in order)", &hist, &m.screen(), &got, "bar_screen");
+                            return report("C01 screen = printed lines + current frame after every draw (C03: printed lines stay, once, in order; C19: wrapped rows are counted as they are shown)", &hist, &m.screen(), &got, "bar_screen");
                         }
                     }
                     // finishing variants
@@ -314,7 +314,9 @@ pub fn bar_forced(_args: &[String]) -> String {
         tried += 1;
         let got = term.contents();
         if got != m.screen() {
-            return report("C04/C05 forced draws (finish*, abandon*, drop of an unfinished bar, println, suspend) paint regardless of the limiter", &hist, &m.screen(), &got, "bar_forced");
+            let clause = if variant <= 4 { "C04/C05 forced draws (finish*, abandon*, drop of an unfinished bar) paint the final state regardless of the limiter" }
+                else { "C03/C05/C01 println and suspend are forced draws: the printed line and the latest frame are on screen regardless of the limiter" };
+            return report(clause, &hist, &m.screen(), &got, "bar_forced");
         }
     }
     format!("{{\"found\": false, \"tried\": {}}}", tried)
@@ -411,7 +413,7 @@ pub fn bar_hidden(_args: &[String]) -> String {
                 let gh = (hid.position(), hid.length(), hid.message(), hid.prefix(), hid.is_finished());
                 if gv != gh {
                     let h: Vec<&str> = hist.iter().map(String::as_str).collect();
-                    return format!("{{\"found\": true, \"clause\": \"C06 getters of a hidden bar evolve exactly as for a visible bar\", \"input\": {{\"history\": {}, \"visible\": {}, \"hidden\": {}}}, \"rerun\": \"replay bar_hidden\"}}",
+                    return format!("{{\"found\": true, \"clause\": \"C06 getters of a hidden bar evolve exactly as for a visible bar (C07: one of the two does not follow the history)\", \"input\": {{\"history\": {}, \"visible\": {}, \"hidden\": {}}}, \"rerun\": \"replay bar_hidden\"}}",
                         crate::jlist(&h), crate::js(&format!("{:?}", gv)), crate::js(&format!("{:?}", gh)));
                 }
             }
@@ -522,7 +524,7 @@ pub fn multi_finish(_args: &[String]) -> String {
             let want: String = want_rows.join("\n");
             let got = term.contents();
             if got != want {
-                return report("C04 visibly finished bars of a MultiProgress keep their final rendering (all wrapped rows), in order, after all bars are dropped", &hist, &want, &got, "multi_finish");
+                return report("C04 visibly finished bars of a MultiProgress keep their final rendering (all wrapped rows; C19), in order (C02), after all bars are dropped", &hist, &want, &got, "multi_finish");
             }
         }
     }
@@ -865,7 +867,7 @@ pub fn bar_reuse(_args: &[String]) -> String {
             tried += 1;
             let got = term.contents();
             if got != want {
-                return report("C04 the configured finish behaviour paints the final state at every completion of a reused bar", &hist, &want, &got, "bar_reuse");
+                return report("C04/C17 the configured finish behaviour paints the final state at every completion of a reused bar", &hist, &want, &got, "bar_reuse");
             }
         }
     }
